@@ -378,7 +378,8 @@ TokenOpGuard(name, t) ==
   IF s = NoSrc THEN TRUE
   \* (enabling an fd-backed source that is enabled already is allowed: it fails with EEXIST and changes nothing)
   ELSE /\ name = "enable" => (~Borrowed(s) /\ (~enabled[s] \/ KindOf(s) # "timer"))
-       /\ name = "update" => (enabled[s] /\ (Borrowed(s) => pending = "continue"))
+       \* (update of a disabled fd-backed source is allowed: it fails with ENOENT and changes nothing)
+       /\ name = "update" => ((enabled[s] \/ (KindOf(s) # "timer" /\ ~Borrowed(s))) /\ (Borrowed(s) => pending = "continue"))
        /\ name = "disable" => (enabled[s] /\ (Borrowed(s) => pending = "continue"))
 
 \* environment: ping / write a byte / read everything / drop a ping handle / set_deadline / time
